@@ -25,7 +25,7 @@ RULE = ("for each seeded world (one argument; home, .Trash/uid, .Trash-uid after
         "adds all pairs; a case is distinct by (world, fault plan) and non-trivial when the fault was actually delivered")
 
 
-def plans_for(trace, reads, tier, rng):
+def plans_for(trace, reads, tier, rng, read_log=()):
     seen, plans = set(), []
     counts = {}
     for rec in trace:
@@ -41,6 +41,10 @@ def plans_for(trace, reads, tier, rng):
         for e in ("EACCES", "EROFS", "ENOSPC", "EIO", "ENAMETOOLONG"):   # EEXIST is the retry signal: "every name is taken for ever" is not a file-system error
             plans.append({"faults": [{"op": k, "persistent": True, "errno": e}]})
     idxs = list(range(reads)) if tier == "thorough" or reads <= 12 else sorted(rng.sample(range(reads), 12))
+    # always: the probes inside the trash directories (is this name taken? does the payload exist?) - a probe that fails
+    # must not be read as "free"
+    probes = [i for i, (_k, ph) in enumerate(read_log) if b"/files/" in bytes.fromhex(ph) or b"/info/" in bytes.fromhex(ph)]
+    idxs = sorted(set(idxs) | set(probes[:40]))
     for i in idxs:
         for e in ("EACCES", "EIO", "ELOOP", "ENOENT"):
             plans.append({"read_faults": [{"index": i, "errno": e}]})
@@ -69,7 +73,7 @@ def eval_task(task):
     impl_plan = dict(plan)
     impl_plan["budget"] = 3000
     r = putcheck.evaluate(world, driver(), plan=impl_plan, model_faults=faults if modelled else None,
-                          oracles=("C01", "C16"), want_states=False)
+                          oracles=("C01", "C16", "C04"), want_states=False)   # C04: what was in the trash before is still whole
     delivered = any(rec[2] not in ("ok",) for rec in r["trace"]) or bool(plan.get("read_faults"))
     out = {"key": (tuple(world["args"]), len(world["nodes"]), json.dumps(plan, sort_keys=True)),
            "tags": ["where:" + world["meta"][0]["where"], "kind:" + world["meta"][0]["kind"]] +
@@ -98,7 +102,7 @@ def eval_task(task):
 
 def base_task(task):
     world = gen_fault_world(task_rng("C17", task["seed"], task["i"]))
-    obs = run_world(world, {})
+    obs = run_world(world, {"log_reads": True})
     # second level: the calls issued once the rename was refused (shutil.move's copy + delete fallback)
     obs2 = run_world(world, {"faults": [{"op": "rename", "nth": 0, "errno": "EXDEV"}]})
     after = []
@@ -112,7 +116,8 @@ def base_task(task):
             after.append((k, n))
         if k == "rename":
             seen_rename = True
-    return {"world": world, "trace": obs["trace"], "reads": obs["reads"], "exit": obs["exit"], "after_rename_fault": after}
+    return {"world": world, "trace": obs["trace"], "reads": obs["reads"], "exit": obs["exit"], "after_rename_fault": after,
+            "read_log": obs.get("read_log", [])}
 
 
 def second_level_plans(after, tier):
@@ -134,7 +139,7 @@ def run(tier, seed):
         if "machinery" in b:
             from ..lean import MachineryError
             raise MachineryError(b["machinery"])
-        for plan in plans_for(b["trace"], b["reads"], tier, ck.rng) + second_level_plans(b["after_rename_fault"], tier):
+        for plan in plans_for(b["trace"], b["reads"], tier, ck.rng, b.get("read_log", [])) + second_level_plans(b["after_rename_fault"], tier):
             tasks.append({"world": b["world"], "plan": plan})
     results = run_tasks(eval_task, tasks)
     from ..lean import MachineryError
